@@ -775,7 +775,12 @@ def gen_wkdibe(rng, n, tier):
             ct2 = S.encrypt(p0, alt); S.decrypt(ct2, k)
         # one slot different (value changed, or a free/hidden slot given a value)
         i = rng.randrange(l)
-        bad = [a for a in fixed if a[0] != i] + [(i, (vals[i] + 1 + rng.randrange(5)) % (1 << 256), False)]
+        # the changed value must differ MODULO r from what the key has in that slot (a fixed value, or nothing = 0 for a free or
+        # hidden slot: an attribute with id = 0 mod r contributes the identity, i.e. is the same as leaving the slot out)
+        have = (vals[i] % R) if pat[i] == "x" else 0
+        nv = (vals[i] + 1 + rng.randrange(5)) % (1 << 256)
+        while nv % R == have: nv = (nv + 1) % (1 << 256)
+        bad = [a for a in fixed if a[0] != i] + [(i, nv, False)]
         ct3 = S.encrypt(p0, bad); S.decrypt(ct3, k, "ne"); S.decryptm(ct3, m0)
         for which in ("a", "b", "c"):
             cm = S.ctmod(ct, which); S.decrypt(cm, k, "ne")
